@@ -438,19 +438,27 @@ fn is_list_node(node: &HashMap<Box<str>, Vec<RdfObject>>) -> bool {
 }
 
 // check if node is a compound literal
+// (only plain strings can be folded into a value object without losing a datatype or language tag,
+// and only "ltr" / "rtl" are acceptable values for @direction)
 fn is_compound_literal(node: &HashMap<Box<str>, Vec<RdfObject>>) -> bool {
     2 <= node.len()
         && node.len() <= 3
-        && node
-            .get(RDF_DIRECTION)
-            .is_some_and(|v| v.len() == 1 && v[0].is_literal())
+        && node.get(RDF_DIRECTION).is_some_and(|v| {
+            v.len() == 1 && is_plain_string(&v[0]) && matches!(v[0].as_str(), "ltr" | "rtl")
+        })
         && node
             .get(RDF_VALUE)
-            .is_some_and(|v| v.len() == 1 && v[0].is_literal())
+            .is_some_and(|v| v.len() == 1 && is_plain_string(&v[0]))
         && (node.len() == 2
-            || node
-                .get(RDF_LANGUAGE)
-                .is_some_and(|v| v.len() == 1 && v[0].is_literal()))
+            || node.get(RDF_LANGUAGE).is_some_and(|v| {
+                v.len() == 1
+                    && is_plain_string(&v[0])
+                    && sophia_api::term::LanguageTag::new(v[0].as_str()).is_ok()
+            }))
+}
+
+fn is_plain_string(obj: &RdfObject) -> bool {
+    matches!(obj, RdfObject::TypedLiteral(_, dt) if dt.as_str() == XSD_STRING)
 }
 
 const NS_18N: &str = "https://www.w3.org/ns/i18n#";
